@@ -36,7 +36,7 @@ ANCHORS = [
     "stereomolgraph.algorithms.isomorphism:_stereo_change_feasibility",
 ]
 REQUIRED_ANCHORS = ANCHORS
-REQUIRED = ["oracle_equal", "oracle_unequal", "cross_class_pairs", "mutation_pairs", "independent_pairs", "with_placeholder", "wl_hard_pairs", "large_pairs", "switch_pairs", "bond_change_only_pairs"]
+REQUIRED = ["oracle_equal", "oracle_unequal", "cross_class_pairs", "mutation_pairs", "independent_pairs", "with_placeholder", "wl_hard_pairs", "large_pairs", "switch_pairs", "bond_change_only_pairs", "static_under_change_pairs"]
 
 
 def gen_cases(ctx):
@@ -52,6 +52,10 @@ def gen_cases(ctx):
     for i in range(ctx.n(1600, 20000)):
         a, b = gen.bond_change_only_pair(rng)
         yield {"kind": "indep", "cls": "StereoCondensedReactionGraph", "a": pg_to_json(a), "b": pg_to_json(b), "mut": None, "bseed": rng.randrange(1 << 30), "family": "bond-change-only"}
+    # one centre carrying a static descriptor AND a complete stereo change: graphs that differ only in the static one
+    for i in range(ctx.n(800, 10000)):
+        a, b = gen.static_under_change_pair(rng)
+        yield {"kind": "indep", "cls": "StereoCondensedReactionGraph", "a": pg_to_json(a), "b": pg_to_json(b), "mut": None, "bseed": rng.randrange(1 << 30), "family": "static-under-change"}
     n = ctx.n(12000, 250000)
     big = (4, 12) if ctx.tier == "quick" else (4, 24)
     for i in range(n):
@@ -253,6 +257,8 @@ def check_case(ctx, case):
         ctx.count("large_pairs")
     if case.get("family") == "bond-change-only":
         ctx.count("bond_change_only_pairs")
+    if case.get("family") == "static-under-change":
+        ctx.count("static_under_change_pairs")
     if kind == "mut":
         ctx.count(f"mut:{case['mut']}:{'equal' if truth else 'unequal'}")
     for name, f in (("a==b", lambda: ga == gb), ("b==a", lambda: gb == ga)):
